@@ -169,6 +169,7 @@ def _q5c(ea, eb, ec, ja, jb, hs, ma, mb, mc):
                 chg["A"] = False
         bstate, stale = _oracle(pr, be, abstract, chg)
         cone, st, pre, sub = P.plan(pr.n, pr.deps, stale, bstate, P.endpoints(pr.n, pr.deps))
+        sel = tuple(sh.get("sel", ()))
         want_sub = sorted(pr.names[i] for i in sub)
         before = w.view()
         tracked_before = pr.read_json(w.tracked_path())
@@ -178,11 +179,20 @@ def _q5c(ea, eb, ec, ja, jb, hs, ma, mb, mc):
         full = {pr.names[i]: st[i].lower() for i in cone}
         if table != full:
             return "status shows %s, expected %s (job states %s, files %s)" % (table, full, abstract, (ea, eb, ec))
+        if sel:
+            # a target/pattern selection: status shows the restriction of the one table to the named targets; the previews and the run act on the selection's cone
+            req = pr.requested(sel)
+            named = w.status_table(targets=sel)
+            if named != {pr.names[i]: full[pr.names[i]] for i in req}:
+                return "status %s shows %s, the full table is %s" % (sel, named, full)
+            cone_s = P.closure(pr.deps, req)
+            shown = sorted(nm for nm in shown if pr.idx(nm) in cone_s)
+            want_sub = sorted(nm for nm in want_sub if pr.idx(nm) in cone_s)
         w.clear_records()
-        w.run(dry_run=True)
+        w.run(sel, dry_run=True)
         would = sorted(w.would_submit())
         if would != shown:
-            return "status lists %s as to-be-run, dry-run would submit %s" % (shown, would)
+            return "status lists %s as to-be-run%s, dry-run would submit %s" % (shown, (" within the cone of %s" % (sel,)) if sel else "", would)
         # purity of the two previews
         mut = w.sim.mutating_log() if w.sim else [r for r in w.pool.requests if r.get("__kind__") in ("enqueue_task", "cancel_task")]
         if mut:
@@ -200,7 +210,7 @@ def _q5c(ea, eb, ec, ja, jb, hs, ma, mb, mc):
             return "a preview changed the recorded spec hashes: %s -> %s" % (hashes_before, pr.read_json(w.hashes_path()))
         # the real run submits exactly those
         n0 = len(abst.jobs_by_cmd(w))
-        w.run()
+        w.run(sel)
         submitted = sorted(j["name"] for j in abst.jobs_by_cmd(w)[n0:])
         if submitted != would or submitted != want_sub:
             return "dry-run would submit %s, run submitted %s, expected %s" % (would, submitted, want_sub)
@@ -227,10 +237,11 @@ QUERIES = [
      "timeout": {"quick": 900, "thorough": 2400},
      "bound": "chain of 3 targets; existence of each output and the earlier job state of A and B (4 values quick / 6 thorough) symbolic, and - in the --endpoints shards - of the endpoint C (none / failed / cancelled); filter combination per shard: -s subsets %s x patterns %s x --endpoints x format {default, summary}: 8 combinations (quick), all 48 (thorough)" % (SSETS, PATS)},
     {"name": "Q5c", "fn": q5c,
-     "shards": {"quick": [dict(d, ja=k) for d in ({"be": "slurm", "shape": "chain3"}, {"be": "local", "shape": "fork3"}) for k in range(6)] + [{"be": "slurm", "shape": "chain3", "hashing": True, "ja": k} for k in (0, 4)] + [{"be": "slurm", "shape": "chain3", "ja": 0, "symtimes": True}],
-                "thorough": [{"be": b, "shape": s, "hashing": h, "ja": k} for b in ("slurm", "sge", "lsf", "local") for s in ("chain3", "fork3") for h in (False, True) for k in range(6)]
+     "shards": {"quick": [dict(d, ja=k) for d in ({"be": "slurm", "shape": "chain3"}, {"be": "local", "shape": "fork3"}) for k in range(6)] + [{"be": "slurm", "shape": "chain3", "hashing": True, "ja": k} for k in (0, 4)] + [{"be": "slurm", "shape": "chain3", "ja": 0, "symtimes": True}]
+                         + [{"be": "slurm", "shape": "chain3", "ja": 0, "sel": ["Zzz*"]}, {"be": "slurm", "shape": "chain3", "ja": 4, "sel": ["B"]}, {"be": "slurm", "shape": "fork3", "ja": 3, "sel": ["B"]}],
+                "thorough": [{"be": "slurm", "shape": sp, "ja": k, "sel": sl} for sp in ("chain3", "fork3") for k in range(6) for sl in (["Zzz*"], ["B"], ["A", "C"])] + [{"be": b, "shape": s, "hashing": h, "ja": k} for b in ("slurm", "sge", "lsf", "local") for s in ("chain3", "fork3") for h in (False, True) for k in range(6)]
                             + [{"be": "slurm", "shape": "chain3", "ja": k, "symtimes": True} for k in (0, 3, 4)]},
      "timeout": {"quick": 1500, "thorough": 3000},
      "bound": "3 targets (chain, fork); existence of each output, earlier job of A and B in one of 6 abstract states, spec hashing off / on with 3 record situations; a stale log of a removed target present; "
-              "sequence status -> run --dry-run -> (purity) -> run; backends slurm + local (quick), all four (thorough); one shard (quick) / three (thorough) with symbolic modification times (ints in 0..100) of the three outputs on Slurm"},
+              "sequence status -> run --dry-run -> (purity) -> run, in extra shards with a target selection (a name, two names, a pattern matching nothing) given to all three; backends slurm + local (quick), all four (thorough); one shard (quick) / three (thorough) with symbolic modification times (ints in 0..100) of the three outputs on Slurm"},
 ]
